@@ -32,8 +32,7 @@ def r1_validators(ctx):
     pi = ix.func(DAG, f"{CLS}.__post_init__", "C15.R1")
     cfg = CFG(pi.node)
     setattrs = [n for n, st in cfg.stmt.items() if st is not None and any(isinstance(c, ast.Call) and U(c.func) == "object.__setattr__" for c in header_walk(st))]
-    if len(setattrs) < 4:
-        raise AnalysisError("C15.R1", "anchor vanished: object.__setattr__ of the computed fields in __post_init__")
+    anchor_ok = len(setattrs) >= 4
     validators = {
         "_raise_if_bad_nodes_in_edges": "unknown nodes / self loops",
         "_raise_if_left_alone_nodes": "isolated variables",
@@ -50,6 +49,16 @@ def r1_validators(ctx):
             for t in s.targets:
                 if _always_reaches(ix, cg, t, vf, set()):
                     good_nodes.append(n)
+        # construction itself refuses: the validator is reached on every path through __post_init__ (a refusal deferred to the first read of an
+        # order-dependent attribute lets the invalid graph object exist)
+        runs = bool(good_nodes) and cfg.all_paths_pass(cfg.entry, [g for g in good_nodes if g is not None])
+        if not runs:
+            ctx.violation("C15.R1", pi, pi.node, f"constructing the graph no longer runs the refusal of {what} ({vname}) on every path: such definitions are accepted and yield a graph object; "
+                          "the error - if any - only comes when an order-dependent attribute is read", construct=f"{vname} before results")
+            continue
+        if not anchor_ok:
+            ctx.unknown("C15.R1", pi, pi.node, f"the computed fields are no longer stored by object.__setattr__ in __post_init__ ({len(setattrs)} found, 4 confirmed)", construct=f"{vname} before results")
+            continue
         ok = bool(good_nodes) and all(any(cfg.dominates(g, sa) for g in good_nodes) for sa in setattrs)
         ctx.check(ok, "C15.R1", pi, pi.node, f"refusal of {what} runs before any result is stored",
                   f"a computed field of the graph can be stored without the refusal of {what} ({vname}) having run", construct=f"{vname} before results")
@@ -306,19 +315,19 @@ def r3_shipped_graphs(ctx):
                   f"{g.cfg.name}: " + "; ".join(problems)[:300], construct="declared variable graph", instance=g.cfg.name)
 
 
-def r4_orientation(ctx):
+def r4_orientation(ctx, rid="C15.R4"):
     from ..astq import Canon
 
-    ctx.rule("C15.R4", "path matrix written [parent, child], children read from rows, ancestors from columns, in the emitted order", 5)
+    ctx.rule(rid, "path matrix written [parent, child], children read from rows, ancestors from columns, in the emitted order", 5)
     ix = ctx.ix
-    f = ix.func(DAG, f"{CLS}.compute_topological_order_and_path_matrix", "C15.R4")
+    f = ix.func(DAG, f"{CLS}.compute_topological_order_and_path_matrix", rid)
     loops = [x for x in ast.walk(f.node) if isinstance(x, ast.While)]
     if len(loops) != 1:
-        raise AnalysisError("C15.R4", "anchor vanished: the traversal loop of compute_topological_order_and_path_matrix")
+        raise AnalysisError(rid, "anchor vanished: the traversal loop of compute_topological_order_and_path_matrix")
     w = loops[0]
     inner = [x for x in ast.walk(w) if isinstance(x, ast.For)]
     if len(inner) != 1:
-        raise AnalysisError("C15.R4", "anchor vanished: loop over the children of the popped node")
+        raise AnalysisError(rid, "anchor vanished: loop over the children of the popped node")
     fl = inner[0]
     # index variables: X = <index map>[<name>]
     idx_of = {}
@@ -327,7 +336,7 @@ def r4_orientation(ctx):
             idx_of[st.targets[0].id] = st.value.slice.id
     popped = [st.targets[0].id for st in w.body if isinstance(st, ast.Assign) and isinstance(st.value, ast.Call) and isinstance(st.value.func, ast.Attribute) and st.value.func.attr in ("get", "popleft", "pop")]
     child = fl.target.id if isinstance(fl.target, ast.Name) else None
-    ctx.anchor(bool(popped) and child is not None and "direct_children" in U(fl.iter) and U(fl.iter).endswith(f"[{popped[0]}]"), "C15.R4", f, fl, "inner loop ranges over the direct children of the popped node",
+    ctx.anchor(bool(popped) and child is not None and "direct_children" in U(fl.iter) and U(fl.iter).endswith(f"[{popped[0]}]"), rid, f, fl, "inner loop ranges over the direct children of the popped node",
                "loop over the children of the popped node")
     pm = None
     prop = []  # (statement, target subscript, the other operand)
@@ -349,8 +358,7 @@ def r4_orientation(ctx):
     if not prop:
         # another way to the closure: repeated squaring of the (re-ordered) adjacency matrix after the traversal, `for _ in range(E): M = M | (M @ M > 0)`
         sq = [lp for lp in ast.walk(f.node) if isinstance(lp, ast.For) and lp is not fl and not any(x is lp for x in ast.walk(fl)) and isinstance(lp.iter, ast.Call) and U(lp.iter.func) == "range"
-              and len(lp.iter.args) == 1 and any(isinstance(x, ast.BinOp) and isinstance(x.op, ast.MatMult) for x in ast.walk(lp))
-              and any(isinstance(x, ast.BinOp) and isinstance(x.op, ast.BitOr) for x in ast.walk(lp))]
+              and len(lp.iter.args) == 1 and any(isinstance(x, ast.BinOp) and isinstance(x.op, ast.MatMult) and U(x.left) == U(x.right) for x in ast.walk(lp))]
         if sq:
             import math as _math
             rounds_expr = sq[0].iter.args[0]
@@ -368,14 +376,14 @@ def r4_orientation(ctx):
                         short = (n_, int(k_))
                         break
             if undecided:
-                ctx.unknown("C15.R4", f, sq[0], f"the closure is computed by repeated squaring with `{U(rounds_expr)[:60]}` rounds, which cannot be evaluated on sizes", construct="closure by repeated squaring")
+                ctx.unknown(rid, f, sq[0], f"the closure is computed by repeated squaring with `{U(rounds_expr)[:60]}` rounds, which cannot be evaluated on sizes", construct="closure by repeated squaring")
             elif short:
-                ctx.violation("C15.R4", f, sq[0], f"the closure is computed by {U(rounds_expr)[:50]} rounds of squaring: for {short[0]} variables that is {short[1]} round(s), i.e. paths of at most {2 ** short[1]} edges, "
+                ctx.violation(rid, f, sq[0], f"the closure is computed by {U(rounds_expr)[:50]} rounds of squaring: for {short[0]} variables that is {short[1]} round(s), i.e. paths of at most {2 ** short[1]} edges, "
                               f"while a chain of {short[0]} variables has a path of {short[0] - 1}: the transitive children / ancestors of long, thin graphs are incomplete", construct="closure by repeated squaring")
             else:
-                ctx.ok("C15.R4", f, sq[0], f"closure by repeated squaring: {U(rounds_expr)[:50]} rounds cover paths of n - 1 edges for every n = 2 .. 69", construct="closure by repeated squaring")
+                ctx.ok(rid, f, sq[0], f"closure by repeated squaring: {U(rounds_expr)[:50]} rounds cover paths of n - 1 edges for every n = 2 .. 69", construct="closure by repeated squaring")
         else:
-            ctx.violation("C15.R4", f, fl, "the ancestors of a node are never propagated to its children (no `|=` on the path matrix inside the traversal): transitive closures lose every indirect link")
+            ctx.violation(rid, f, fl, "the ancestors of a node are never propagated to its children (no `|=` on the path matrix inside the traversal): transitive closures lose every indirect link")
     for s_, t, v in prop:
         pm = U(t.value)
 
@@ -384,10 +392,10 @@ def r4_orientation(ctx):
         if col(t) and col(v) and U(v.value) == pm:
             tj, vi = t.slice.elts[1].id, v.slice.elts[1].id
             good = idx_of.get(tj) == child and popped and idx_of.get(vi) == popped[0]
-            ctx.check(good, "C15.R4", f, s_, "column of the child |= column of its parent (ancestors inherited)",
+            ctx.check(good, rid, f, s_, "column of the child |= column of its parent (ancestors inherited)",
                       f"`{U(s_)}`: the column written is that of `{idx_of.get(tj)}` and the one read that of `{idx_of.get(vi)}` - ancestors must flow from the popped node to its child")
         else:
-            ctx.unknown("C15.R4", f, s_, "propagation statement is not of the column-wise form `M[:, child] |= M[:, parent]`")
+            ctx.unknown(rid, f, s_, "propagation statement is not of the column-wise form `M[:, child] |= M[:, parent]`")
     def _node_of(e):
         """the graph node whose index `e` is: a name bound to `ix[node]`, or `ix[node]` itself"""
         if isinstance(e, ast.Name):
@@ -398,15 +406,15 @@ def r4_orientation(ctx):
     edges = [s_ for s_ in ast.walk(fl) if isinstance(s_, ast.Assign) and isinstance(s_.targets[0], ast.Subscript) and U(s_.value) == "True" and isinstance(s_.targets[0].slice, ast.Tuple)
              and len(s_.targets[0].slice.elts) == 2 and all(isinstance(e, (ast.Name, ast.Subscript)) for e in s_.targets[0].slice.elts)]
     if not edges:
-        ctx.violation("C15.R4", f, fl, "the direct edge parent -> child is never written into the path matrix")
+        ctx.violation(rid, f, fl, "the direct edge parent -> child is never written into the path matrix")
     for s_ in edges:
         r_, c_ = s_.targets[0].slice.elts
         good = popped and _node_of(r_) == popped[0] and _node_of(c_) == child
         idx_of_ = {U(r_): _node_of(r_), U(c_): _node_of(c_)}
-        ctx.check(good, "C15.R4", f, s_, "direct edge written at [parent, child]", f"`{U(s_)}` writes the edge at [{_node_of(r_)}, {_node_of(c_)}], not [parent, child]: rows would hold ancestors, columns descendants")
+        ctx.check(good, rid, f, s_, "direct edge written at [parent, child]", f"`{U(s_)}` writes the edge at [{_node_of(r_)}, {_node_of(c_)}], not [parent, child]: rows would hold ancestors, columns descendants")
     L = Canon(f.node).lines(False, True)
     ok = unify(L, ["?sn += (?n,)", "?ix = [?idx[?m] for ?m in ?sn]", "?pm = ?pm[?ix, :][:, ?ix]", "return (?sn, ?pm)"]) is not None
-    ctx.anchor(ok, "C15.R4", f, f.node, "rows and columns permuted into the emitted order", "re-indexing of the path matrix into the emitted order", construct="re-indexing")
+    ctx.anchor(ok, rid, f, f.node, "rows and columns permuted into the emitted order", "re-indexing of the path matrix into the emitted order", construct="re-indexing")
     def emptiness(cond, coll):
         """does the test text `cond` hold exactly when the collection `coll` is empty?  True / False / None (not a test on its size)"""
         import re as _re
@@ -445,19 +453,19 @@ def r4_orientation(ctx):
         b1["cond"] = cond_after(b1, "#1", f"{b1['q']}.put({b1['c']})")
     v1 = emptiness(b1["cond"].replace(b1["da"] + "[" + b1["c"] + "]", "S"), "S") if b1 is not None and b1["cond"] else None
     if v1 is False:
-        ctx.violation("C15.R4", f, f.node, f"a child is queued when `{b1['cond']}` (source names: remaining direct ancestors): not exactly when its last direct ancestor has been emitted - "
+        ctx.violation(rid, f, f.node, f"a child is queued when `{b1['cond']}` (source names: remaining direct ancestors): not exactly when its last direct ancestor has been emitted - "
                       "nodes are emitted before an ancestor, or never", construct="Kahn condition")
     else:
-        ctx.anchor(v1 is True, "C15.R4", f, f.node, "a node is emitted only once all its direct ancestors were", "Kahn condition (remaining ancestors == 0)", construct="Kahn condition")
+        ctx.anchor(v1 is True, rid, f, f.node, "a node is emitted only once all its direct ancestors were", "Kahn condition (remaining ancestors == 0)", construct="Kahn condition")
     b0 = unify(L, ["for (?da.items(), (?n, ?s))", "?n = ?q.get()"])
     if b0 is not None:
         b0["cond"] = cond_after(b0, "#0", f"{b0['q']}.put({b0['n']})")
     v0 = emptiness(b0["cond"].replace(b0["s"], "S"), "S") if b0 is not None and b0["cond"] else None
     if v0 is False:
-        ctx.violation("C15.R4", f, f.node, f"the work list is seeded with the nodes for which `{b0['cond']}` (canonical names): not exactly the nodes without direct ancestor", construct="Kahn seeding")
+        ctx.violation(rid, f, f.node, f"the work list is seeded with the nodes for which `{b0['cond']}` (canonical names): not exactly the nodes without direct ancestor", construct="Kahn seeding")
     else:
-        ctx.anchor(v0 is True, "C15.R4", f, f.node, "the work list starts from exactly the nodes without direct ancestor", "seeding of the work list (no direct ancestor)", construct="Kahn seeding")
-    g = ix.func(DAG, f"{CLS}.compute_sorted_children_and_ancestors", "C15.R4")
+        ctx.anchor(v0 is True, rid, f, f.node, "the work list starts from exactly the nodes without direct ancestor", "seeding of the work list (no direct ancestor)", construct="Kahn seeding")
+    g = ix.func(DAG, f"{CLS}.compute_sorted_children_and_ancestors", rid)
     a = g.node.args.args
     pmn = a[1].arg if len(a) > 1 else "path_matrix"
     sn = a[0].arg
@@ -471,7 +479,7 @@ def r4_orientation(ctx):
         else:
             order.append(U(e))
     if len(order) != 2 or any(o not in comps for o in order):
-        ctx.unknown("C15.R4", g, g.node, "compute_sorted_children_and_ancestors no longer returns two dictionary comprehensions")
+        ctx.unknown(rid, g, g.node, "compute_sorted_children_and_ancestors no longer returns two dictionary comprehensions")
     else:
         for pos, (what, want_axis) in enumerate((("children", 0), ("ancestors", 1))):
             dc = comps[order[pos]]
@@ -479,10 +487,10 @@ def r4_orientation(ctx):
             idxv = gen.target.elts[0].id if isinstance(gen.target, ast.Tuple) and isinstance(gen.target.elts[0], ast.Name) else None
             subs = [x for x in ast.walk(dc.value) if isinstance(x, ast.Subscript) and U(x.value) == pmn and isinstance(x.slice, ast.Tuple) and len(x.slice.elts) == 2]
             if idxv is None or len(subs) != 1 or U(gen.iter) != f"enumerate({sn})":
-                ctx.unknown("C15.R4", g, dc, f"{what}: unrecognised reader form")
+                ctx.unknown(rid, g, dc, f"{what}: unrecognised reader form")
                 continue
             axis = 0 if U(subs[0].slice.elts[0]) == idxv else (1 if U(subs[0].slice.elts[1]) == idxv else None)
-            ctx.check(axis == want_axis and f"{sn}[" in U(dc.value), "C15.R4", g, dc, f"{what} of a node = its {'row' if want_axis == 0 else 'column'} of the path matrix, listed in the emitted order",
+            ctx.check(axis == want_axis and f"{sn}[" in U(dc.value), rid, g, dc, f"{what} of a node = its {'row' if want_axis == 0 else 'column'} of the path matrix, listed in the emitted order",
                       f"{what} are read from the {'column' if axis == 1 else 'row'} of the node: with edges written at [parent, child] that yields the {'ancestors' if what == 'children' else 'descendants'} instead")
 
 
